@@ -10,7 +10,8 @@ from tcv.runtime import RT
 
 CONFIG_ONLY = ['chg_value', 'chg_value', 'chg_value_deep', 'retag', 'chg_obj_arg', 'chg_context', 'drop_optional',
                'rename_files', 'perm_keys', 'fmt_swap', 'perm_uses', 'to_context', 'chg_default_param', 'swap_mounts',
-               'swap_mounts', 'rename_mount', 'rename_mount']
+               'swap_mounts', 'rename_mount', 'rename_mount', 'uses_objects',
+               'uses_objects']
 
 
 @st.composite
